@@ -47,6 +47,7 @@ structure Stable0 (dest mp : String) (I : St → Prop) : Prop where
   tick : ∀ s op, I s → I { s with calls := s.calls + 1, trace := s.trace ++ [op] }
   cb : ∀ s c t, I s → I { s with cb := c, cbTotal := t }
   cv : ∀ s c, I s → I { s with cv := c }
+  tn : ∀ s t, I s → I { s with tn := t }
   /-- a change of the two destination files through a write handle -/
   fs : ∀ s fs', (∀ p, p ≠ dest → p ≠ mp → FS.get? fs' p = FS.get? s.fs p) → s.wopened ≠ [] → I s → I { s with fs := fs' }
   /-- a successful (i.e. not the planned fault) `open(f, "wb")` of a destination file, from the state before the call:
@@ -281,6 +282,7 @@ theorem stable0_objAt (dest mp : String) (id : Nat) (t : TRef) :
   tick := fun _ _ h => h
   cb := fun _ _ _ h => h
   cv := fun _ _ h => h
+  tn := fun _ _ h => h
   fs := fun _ _ _ _ h => h
   openW := fun _ _ _ _ h _ => h
   new := fun s t' h => by
@@ -412,25 +414,32 @@ theorem inv_unload (names : List String) (verbose : Bool) : Inv I (unload names 
 end
 
 /-- Every stable invariant (for `dest = dir/name.data`, `mp = dir/name`) survives the whole save, for every fault plan. -/
-theorem inv_save {I : St → Prop} (deep : Bool) (sig : List (String × Bool)) (tnames : List String) (dir name : String) (verbose : Bool)
+theorem inv_save {I : St → Prop} (cfg : Cfg) (sig : List (String × Bool)) (tnames : List String) (dir name : String) (verbose : Bool)
     (S : Stable (joinPath dir (name ++ ".data")) (joinPath dir name) I) :
-    Inv I (save deep sig tnames dir name verbose) := by
+    Inv I (save cfg sig tnames dir name verbose) := by
   unfold save
   refine inv_bind inv_get (fun s => ?_)
   split
   · exact inv_throw _
-  · unfold irSave
-    refine inv_bind inv_get (fun s0 => ?_)
-    apply inv_tryFinally
-    · refine inv_bind (inv_unload S _ verbose) (fun _ => ?_)
-      refine inv_bind inv_get (fun s1 => ?_)
-      split
-      · exact inv_throw _
-      · simp only []
-        refine inv_bind (inv_fsOpenW S.toStable0 _ (Or.inr rfl)) (fun _ => ?_)
-        exact inv_withClose S.toStable0 _ (inv_fsWriteProto S.toStable0 _ _ (Or.inr rfl))
-    · intro s hs
-      exact S.cv s _ hs
+  · split
+    · exact inv_throw _
+    have hir : Inv I (irSave sig tnames dir name (name ++ ".data") verbose) := by
+      unfold irSave
+      refine inv_bind inv_get (fun s0 => ?_)
+      apply inv_tryFinally
+      · refine inv_bind (inv_unload S _ verbose) (fun _ => ?_)
+        refine inv_bind (inv_modify (fun s' hs => S.tn s' _ hs)) (fun _ => ?_)
+        refine inv_bind inv_get (fun s1 => ?_)
+        split
+        · exact inv_throw _
+        · simp only []
+          refine inv_bind (inv_fsOpenW S.toStable0 _ (Or.inr rfl)) (fun _ => ?_)
+          exact inv_withClose S.toStable0 _ (inv_fsWriteProto S.toStable0 _ _ (Or.inr rfl))
+      · intro s hs
+        exact S.cv s _ hs
+    split
+    · exact inv_tryFinally hir (fun s' hs => S.tn s' _ hs)
+    · exact hir
 
 /-! ### the two invariants used by the property theorems -/
 
@@ -442,6 +451,7 @@ theorem stable_orig (h0 : List TRef) (dest mp : String)
   tick := fun _ _ h => h
   cb := fun _ _ _ h => h
   cv := fun _ _ h => h
+  tn := fun _ _ h => h
   fs := fun _ _ _ _ h => h
   openW := fun _ _ _ _ h _ => h
   new := fun s t' h id t ht => by
@@ -469,6 +479,7 @@ theorem stable_frame (fs0 : FS) (dest mp : String) :
   tick := fun _ _ h => h
   cb := fun _ _ _ h => h
   cv := fun _ _ h => h
+  tn := fun _ _ h => h
   fs := fun s fs' hfs _ h p h1 h2 => by
     show FS.get? fs' p = FS.get? fs0 p
     rw [hfs p h1 h2]; exact h p h1 h2
@@ -499,6 +510,7 @@ theorem stable_untouched (fs0 : FS) (k0 : Option Nat) (dest mp : String) : Stabl
       rw [List.getElem?_append_left hlt]; exact hi
   cb := fun _ _ _ h => h
   cv := fun _ _ h => h
+  tn := fun _ _ h => h
   fs := fun s fs' _ hw ⟨hk, hl, h⟩ => by
     refine ⟨hk, hl, ?_⟩
     rcases h with ⟨_, h2⟩ | h
@@ -513,25 +525,56 @@ theorem stable_untouched (fs0 : FS) (k0 : Option Nat) (dest mp : String) : Stabl
   inval := fun _ _ _ _ _ _ h _ _ => h
 
 /-- The `const_value` pointers after the call are the ones before it — `finally` of `ir.save`. -/
-theorem save_cv (deep : Bool) (sig : List (String × Bool)) (tnames : List String) (dir name : String) (verbose : Bool) (s : St) :
-    (save deep sig tnames dir name verbose s).2.cv = s.cv := by
+theorem irSave_cv (sig : List (String × Bool)) (tnames : List String) (dir name rel : String) (verbose : Bool) (s : St) :
+    (irSave sig tnames dir name rel verbose s).2.cv = s.cv := by
+  unfold irSave
+  show (M.bind get _ s).2.cv = s.cv
+  simp only [M.bind, get, tryFinally]
+
+theorem save_cv (cfg : Cfg) (sig : List (String × Bool)) (tnames : List String) (dir name : String) (verbose : Bool) (s : St) :
+    (save cfg sig tnames dir name verbose s).2.cv = s.cv := by
   unfold save
   show (M.bind get _ s).2.cv = s.cv
   simp only [M.bind, get]
   split
   · rfl
-  · unfold irSave
-    show (M.bind get _ s).2.cv = s.cv
-    simp only [M.bind, get, tryFinally]
+  · split
+    · rfl
+    split
+    · simp only [tryFinally]
+      exact irSave_cv sig tnames dir name _ verbose s
+    · exact irSave_cv sig tnames dir name _ verbose s
+
+/-- With the name-restoring `finally` (`cfg.keepNames`), the tensor names after the call are the ones before it. -/
+theorem save_tn (cfg : Cfg) (hkn : cfg.keepNames = true) (sig : List (String × Bool)) (tnames : List String)
+    (dir name : String) (verbose : Bool) (s : St) :
+    (save cfg sig tnames dir name verbose s).2.tn = s.tn := by
+  unfold save
+  show (M.bind get _ s).2.tn = s.tn
+  simp only [M.bind, get, hkn, if_true]
+  split
+  · rfl
+  · split
+    · rfl
+    · simp only [tryFinally]
 
 /-- The guard fires: nothing at all happens. -/
-theorem save_guard (deep : Bool) (sig : List (String × Bool)) (tnames : List String) (dir name : String) (verbose : Bool) (s : St)
-    (h : (guardHits deep sig s.cv).isEmpty = false) :
-    save deep sig tnames dir name verbose s = (.error .valueError, s) := by
+theorem save_guard (cfg : Cfg) (sig : List (String × Bool)) (tnames : List String) (dir name : String) (verbose : Bool) (s : St)
+    (h : (guardHits cfg.deep sig s.cv).isEmpty = false) :
+    save cfg sig tnames dir name verbose s = (.error .valueError, s) := by
   unfold save
   show M.bind get _ s = _
   simp only [M.bind, get, h]
   rfl
+
+/-- The second guard (tensors stored in the destination data file) fires: nothing at all happens. -/
+theorem save_guard2 (cfg : Cfg) (sig : List (String × Bool)) (tnames : List String) (dir name : String) (verbose : Bool) (s : St)
+    (hr : cfg.refuse = true) (h : (destHits (joinPath dir (name ++ ".data")) s.heap s.cv).isEmpty = false) :
+    (save cfg sig tnames dir name verbose s).1 = .error .valueError ∧ (save cfg sig tnames dir name verbose s).2 = s := by
+  unfold save
+  show (M.bind get _ s).1 = _ ∧ (M.bind get _ s).2 = _
+  simp only [M.bind, get, hr, h]
+  split <;> exact ⟨rfl, rfl⟩
 
 theorem guardHits_hit (deep : Bool) :
     ∀ (sig : List (String × Bool)) (cv : List (Option Nat)) (i : Nat) (n : String) (sub : Bool),
